@@ -22,6 +22,7 @@ it in a Sequence).  A Source contains exactly one `src` leaf, which is its first
 """
 import copy
 import itertools
+import json
 import os
 import re
 import shutil
@@ -35,6 +36,7 @@ TITLE = "Static context seen by an element depends only on what encloses and pre
 LEAN_MODULES = ["LenaModel.Props.C13"]
 LEAN_SOURCES = ["LenaModel/Model/Val.lean", "LenaModel/Model/C13.lean", "LenaModel/Lemmas/C13Dict.lean",
                 "LenaModel/Lemmas/C13Pass.lean", "LenaModel/Lemmas/C13WF.lean", "LenaModel/Lemmas/C13Frame.lean",
+                "LenaModel/Lemmas/C13Reuse.lean",
                 "LenaModel/Props/C13.lean"]
 DRIVER = "drivers/C13.lean"
 THEOREMS = [
@@ -59,6 +61,9 @@ THEOREMS = [
     "Lena.C13.get_context_is_fold",
     "Lena.C13.get_context_at",
     "Lena.C13.redelivery_idempotent",
+    # … and re-use: a delivery that reaches every element leaves no memory of earlier deliveries
+    "Lena.C13.delivery_memoryless",
+    "Lena.C13.reuse_memoryless",
     # sentence 3: an unresolved key surfaces, naming the key
     "Lena.C13.surfaced_key_is_missing",
     "Lena.C13.fold_error_origin",
@@ -103,12 +108,16 @@ ASSUMPTIONS = [
     "place a dictionary it was handed.  lena's own elements do not (SetContext, StoreContext and LenaSplit deep-copy, "
     "_get_context returns deep copies, UpdateContextFromStatic.run and MakeFilename.__call__ copy what they stored).  The "
     "copies themselves are checked by the harness, not proved: (i) hostile probe elements that update the dictionary they "
-    "are handed in place (at construction: hset; while the flow runs: hrun) are placed in Split branches, after "
+    "are handed in place AT EVERY LEVEL — every nested dictionary gets a key, every list an item — (at construction: "
+    "hset; while the flow runs: hrun) are placed in Split branches, after "
     "StoreContext, after SetContext and after nested sequences, and nothing outside the group of elements that lena hands "
     "the very same object (token model `tokAt`, theorem split_branches_independent) may change; (ii) every dictionary "
-    "returned by _get_context() is updated in place at every level and no element may change; (iii) id()-classes of the "
-    "held dictionaries: a StoreContext / SetContext shares with nobody, two elements share only if `tokAt` gives them one "
-    "token.  Trees with hostile probes are judged by the oracle only (no model reply).",
+    "returned by _get_context() is updated in place at every level (lists are extended) and no element may change; "
+    "(iii) id()-classes of the held dictionaries and lists: a StoreContext / SetContext shares with nobody, two elements "
+    "share only if `tokAt` gives them one token; (iv) MUTABLE constants: SetContext values that are lists (of scalars, of "
+    "lists, of dictionaries) followed by UpdateContextFromStatic and an ordinary run-time element that extends in place "
+    "every list of the run-time context (`app`): the state of every element after the run must equal its state before.  "
+    "Trees with hostile probes are judged by the oracle only (no model reply).",
     "JUDGEMENT (hostile elements): an element whose _set_context updates its argument in place is not among the leaves "
     "the property quantifies over.  lena hands ONE dictionary object to consecutive elements of a sequence until an "
     "element with _get_context intervenes; UpdateContextFromStatic and MakeFilename keep that object, so a hostile "
@@ -131,7 +140,12 @@ ASSUMPTIONS = [
     "JUDGEMENT (which key is named): when several Split branches have an unresolved key the statement does not say which "
     "one is named; the oracle accepts any of them (the model and the reference name the first, as the code does).  "
     "Unresolved keys in the templates of Write / Cache / MakeFilename never surface: the name stays unformatted.",
-    "DOMAIN: context leaves are ints and strings; keys are strings, nesting depth <= 3 in generated cases (theorems: any "
+    "DOMAIN: context leaves of the MODEL are ints and strings; generated SetContext / run-time values are also lists "
+    "(mutable), nested lists, lists of dictionaries, floats and None — the model sees each of them as an opaque string "
+    "leaf with an injective tag (equality of the tags is Python's == on the pool; no bool, which equals an int), and no "
+    "formatting field names a key that holds one (str() of it is outside the model, like that of a dictionary).  "
+    "Dictionary-valued SetContext values are not generated (SetContext(k, {..}) merges like several SetContext).  Keys "
+    "are strings, nesting depth <= 3 in generated cases (theorems: any "
     "depth).  Rendering a dictionary with str() (a formatting field that names a sub-dictionary) is outside the model: "
     "`Leaf.bad` is a poison leaf, all theorems are statements about the model, and the model is a model of the code only "
     "for programs whose constructed state has `St.noBad` — evaluated by the driver on every case and required to be true; "
@@ -161,25 +175,39 @@ ASSUMPTIONS = [
     "Split is built with bufsize=None (the whole flow is one buffer), Cache with recompute=True and at most one Cache in a "
     "tree whose flow is run (an existing cache file would replace the flow: C18), flow data are ints (Write passes them on)",
     "_set_context(c) on a constructed tree ('redeliver', one or two arbitrary contexts) is compared with setCtx of the "
-    "model, which exercises the stale-_static_context and ret/raise branches that nesting alone cannot reach; the oracle "
-    "judges only a single delivery (= an enclosing sequence)",
+    "model, which exercises the stale-_static_context and ret/raise branches that nesting alone cannot reach.  "
+    "JUDGEMENT (element re-use): the oracle judges a single delivery (= an enclosing sequence) always, and a SECOND "
+    "delivery (= the constructed tree is placed into a second enclosing sequence, as lena's own tests do with elements) "
+    "only when it reaches every element (`covers` / py_covers: no unresolved key, no element handed an empty context): "
+    "then every element must hold the fold started from the last context and derive its names from it "
+    "(theorems delivery_memoryless, reuse_memoryless).  When the second delivery does NOT reach an element lena keeps "
+    "what the first one left there (skip-while-empty, `return` at an unresolved key, Write/Cache keep a name they cannot "
+    "format again): that is the code's documented reliance on nesting ('external context can not delete local keys'), "
+    "recorded here, not reported",
+    "run-time elements that extend lists in place (`app`) are outside the model: trees that contain one are modelled for "
+    "static context only, their flow is judged by the oracle (state before = state after, the differential no-leak run, "
+    "and — for trees without MakeFilename — an independent reference run: static context enters only as the recursive "
+    "update that UpdateContextFromStatic makes with the prefix fold)",
 ]
-RULE = ("quick: five directed families (hostile in-place updaters next to every copy the statement names; degenerate "
-        "Splits; (~290 trees for run-time aliasing of static context: nested static key, "
+RULE = ("quick: seven directed families (hostile in-place updaters, writing at every level, next to every copy the "
+        "statement names; degenerate Splits; ~430 trees with mutable (list-valued) static keys, consumers and a run-time "
+        "element that extends lists in place; ~40 trees delivered two different contexts in turn (element re-use); (~290 trees for run-time aliasing of static context: nested static key, "
         "UpdateContextFromStatic/MakeFilename, a later in-place update of the run-time context by a user mutator, a second "
         "UpdateContextFromStatic or MakeFilename, three values; ~100 trees for FillComputeSeq / FillRequestSeq nodes, tuple "
         "branches that Split converts into them, branches given as bare elements, and Splits constructed while the caches "
         "of their branches exist; ~350 trees with static keys below `output` followed by MakeFilename prefix / suffix / "
         "filename methods, values with and without a run-time `output` key); all trees with <= 2 leaves over 10 leaf kinds (SetContext constant / formatting / "
         "nested key, StoreContext, UpdateContextFromStatic, MakeFilename, Write, Cache, plain element, run-time mutator), "
-        "depth <= 2, Sequence and Source tops; 4000 seeded trees with 3 leaves over 7 leaf kinds; 3000 seeded random trees "
+        "depth <= 2, Sequence and Source tops; 4000 seeded trees with 3 leaves over 7 leaf kinds; 1500 seeded trees with 4 "
+        "leaves over 8 leaf kinds with list values and list-extending run-time elements; 3000 seeded random trees "
         "of depth <= 3 (Sequence / Source / FillComputeSeq / FillRequestSeq / tuple / bare-element branches, 0-3 Split "
         "branches, 6 keys, 7 formatting fields incl. unresolvable ones, MakeFilename with any legal combination of "
-        "filename/dirname/fileext/prefix/suffix/overwrite, 15 % of the trees with a Cache constructed a second time with "
+        "filename/dirname/fileext/prefix/suffix/overwrite, 12 % of the SetContext values lists / nested lists / floats / None, "
+        "20 % of the trees re-delivered one or two contexts out of 8, 15 % of the trees with a Cache constructed a second time with "
         "the cache files present) each with two causality variants and a run-time flow out of 7 (1-3 values; none for "
         "trees with fill/compute elements); every element's static state and names are read before and after the run.  "
         "thorough: all trees with <= 3 leaves over the 7 leaf kinds and <= 2 leaves over all 10, 30 000 seeded 4-leaf "
-        "trees over the 10 kinds, 30 000 random trees.  Non-trivial: some element saw a non-empty context or derived a "
+        "trees over the 10 kinds, 10 000 over the 8 list kinds, 30 000 random trees.  Non-trivial: some element saw a non-empty context or derived a "
         "formatted name.")
 LEVEL_TEXT = ("Lean 4 theorems about a transcribed VALUE model of the multi-pass static-context protocol (bottom-up "
               "construction, _set_context({}) in every constructor, re-propagation by enclosing sequences, skip-while-empty, "
@@ -218,6 +246,71 @@ def parse_template(s):
     return parts
 
 
+# ------------------------------------------------------------------------------------------------
+# values.  The model's leaves are Python ints and strings ("plain").  Every other constant that a SetContext may be
+# given — a list (mutable!), a list of lists, a list holding a dictionary, a float, None — is OPAQUE: the model
+# sees it as a string leaf with an injective tag (Python's == on the pool of opaque values is equality of these
+# strings), the generator never lets a formatting field name a key that holds one (str() of it is not modelled).
+
+_TAG = "~L~"
+
+
+def _is_plain(v):
+    return (isinstance(v, int) and not isinstance(v, bool)) or isinstance(v, str)
+
+
+def _encv(x):
+    """a context / value in the vocabulary of the model: opaque leaves become tagged strings"""
+    if isinstance(x, dict):
+        return {k: _encv(v) for k, v in x.items()}
+    if _is_plain(x):
+        return x
+    return _TAG + json.dumps(x, sort_keys=True)
+
+
+def _grow(x):
+    """extend IN PLACE every list reachable from the context x (and mark every dictionary that sits in a list):
+    what `context["cuts"].append(...)` in a user's run-time element does"""
+    if isinstance(x, dict):
+        for v in x.values():
+            _grow(v)
+    elif isinstance(x, list):
+        for v in x:
+            if isinstance(v, dict):
+                v["rt"] = 1
+            else:
+                _grow(v)
+        x.append("rt")
+
+
+def _grown(x):
+    """the value of x after _grow (x is not touched)"""
+    x = copy.deepcopy(x)
+    _grow(x)
+    return x
+
+
+def _mark(x, key, item):
+    """update IN PLACE every dictionary reachable from x with key: 1 and append item to every list"""
+    if isinstance(x, dict):
+        for v in list(x.values()):
+            _mark(v, key, item)
+        x[key] = 1
+    elif isinstance(x, list):
+        for v in x:
+            _mark(v, key, item)
+        x.append(item)
+
+
+def _unmark(x, pred):
+    """x without the marks (dictionary keys / list items) that satisfy pred"""
+    if isinstance(x, dict):
+        return {k: _unmark(v, pred) for k, v in x.items() if not (isinstance(k, str) and pred(k))}
+    if isinstance(x, list):
+        return [_unmark(v, pred) for v in x if not (isinstance(v, str) and pred(v))]
+    return x
+
+
 class RefKeyError(Exception):
     def __init__(self, comp):
         Exception.__init__(self, comp)
@@ -249,7 +342,7 @@ def ref_format(tpl, ctx):
     vals = [ref_get(ctx, f) for f in tpl[1::2]]
     out = [tpl[0]]
     for v, lit in zip(vals, tpl[2::2]):
-        if isinstance(v, dict):
+        if not _is_plain(v):
             raise DictRendered()
         out.append(str(v))
         out.append(lit)
@@ -342,6 +435,7 @@ class Ref:
 
     def __init__(self, tree, start=None):
         self.exp = {}
+        self.empty_in = set()       # nodes with _set_context that the fold hands an EMPTY context (lena skips them)
         self.seen_at = {}           # the context handed to Write / Cache nodes
         self.dict_rendered = False
         self.counter = 0
@@ -359,8 +453,10 @@ class Ref:
         idx = self.counter
         self.counter += 1
         k = node["k"]
+        if not ctx and k not in ("data", "src", "mut", "app", "fc", "fr"):
+            self.empty_in.add(idx)
         if k == "set":
-            val = node["val"]
+            val = copy.deepcopy(node["val"])
             tpl = parse_template(val) if isinstance(val, str) else None
             try:
                 if tpl is not None:
@@ -393,14 +489,18 @@ class Ref:
                     rec["name"] = node["fmt"]
             self.exp[idx] = rec
             return ctx
-        if k in ("data", "src", "mut", "fc", "fr", "hrun"):
-            self.exp[idx] = {"k": "data" if k in ("fc", "fr") else k}
+        if k in ("data", "src", "mut", "app", "fc", "fr", "hrun"):
+            self.exp[idx] = {"k": "data" if k in ("fc", "fr", "app") else k}
             return ctx
         if k == "hset":
             # a hostile element that updates the dictionary it is given in place: what follows it sees the update
             # (a sequence never hands an empty context to an element)
             self.exp[idx] = {"k": k}
-            return dict(ctx, **{"hz%d" % idx: 1}) if ctx else ctx
+            if not ctx:
+                return ctx
+            new = copy.deepcopy(ctx)
+            _mark(new, "hz%d" % idx, "hz%d" % idx)
+            return new
         if k == "seq":
             children = node["c"]
             for i, c in enumerate(children):
@@ -508,7 +608,10 @@ def ref_run(node, exp, idx, flow):
     if k in ("set", "store", "write", "cache", "data", "fc", "fr", "hset", "hrun"):
         return flow, idx + 1
     if k == "mut":
-        return [(d, c if c is None else ref_update(c, ref_path_dict(node["key"], node["val"]))) for d, c in flow], idx + 1
+        return [(d, c if c is None else ref_update(c, ref_path_dict(node["key"], copy.deepcopy(node["val"]))))
+                for d, c in flow], idx + 1
+    if k == "app":
+        return [(d, c if c is None else _grown(c)) for d, c in flow], idx + 1
     if k == "src":
         return [(i, copy.deepcopy(c)) for i, c in enumerate(SRC_FLOW)], idx + 1
     if k == "seq":
@@ -630,8 +733,18 @@ class _Mutator(object):
         if not (isinstance(value, tuple) and len(value) == 2 and isinstance(value[1], dict)):
             return value            # bare data: nothing to update
         data, context = value
-        lena.context.update_recursively(context, lena.context.str_to_dict(self._key, self._val))
+        lena.context.update_recursively(context, lena.context.str_to_dict(self._key, copy.deepcopy(self._val)))
         return (data, context)
+
+
+class _Appender(object):
+    """an ordinary run-time element that extends IN PLACE every list in the run-time context of every value (as
+    `context["cuts"].append(cut)` in a user's callable does)"""
+
+    def __call__(self, value):
+        if isinstance(value, tuple) and len(value) == 2 and isinstance(value[1], dict):
+            _grow(value[1])
+        return value
 
 
 class _HSet(object):
@@ -642,11 +755,16 @@ class _HSet(object):
         self._tag = tag
 
     def _set_context(self, context):
-        context["hz%d" % self._tag] = 1
+        # at every level: every dictionary gets a key, every list an item
+        _mark(context, "hz%d" % self._tag, "hz%d" % self._tag)
         self._context = context
 
     def __call__(self, value):
         return value
+
+
+def _marked(x, key):
+    return isinstance(x, dict) and key in x
 
 
 class _HRun(object):
@@ -660,8 +778,8 @@ class _HRun(object):
 
     def run(self, flow):
         for val in flow:
-            if hasattr(self, "_context"):
-                self._context["hr%d" % self._tag] = 1
+            if hasattr(self, "_context") and not _marked(self._context, "hr%d" % self._tag):
+                _mark(self._context, "hr%d" % self._tag, "hr%d" % self._tag)
             yield val
 
 
@@ -690,7 +808,7 @@ def build(node, objs):
     slot = len(objs)
     objs.append(None)
     if k == "set":
-        o = lena.meta.SetContext(node["key"], node["val"])
+        o = lena.meta.SetContext(node["key"], copy.deepcopy(node["val"]))
     elif k == "store":
         o = lena.meta.StoreContext()
     elif k == "ucfs":
@@ -714,6 +832,8 @@ def build(node, objs):
         o = _FR()
     elif k == "mut":
         o = _Mutator(node["key"], node["val"])
+    elif k == "app":
+        o = _Appender()
     elif k == "hset":
         o = _HSet(slot)
     elif k == "hrun":
@@ -776,7 +896,7 @@ def read_state(tree, objs):
         elif k in ("seq", "split"):
             recs.append({"k": k, "get": _get(o)})
         else:
-            recs.append({"k": "data" if k in ("fc", "fr") else k})
+            recs.append({"k": "data" if k in ("fc", "fr", "app") else k})
     return recs
 
 
@@ -793,14 +913,20 @@ def _held(node, o):
 
 
 def _dict_ids(d, acc):
+    """identities of the mutable containers (dictionaries, lists) reachable from d"""
     if isinstance(d, dict):
         acc.add(id(d))
         for v in d.values():
             _dict_ids(v, acc)
+    elif isinstance(d, list):
+        acc.add(id(d))
+        for v in d:
+            _dict_ids(v, acc)
 
 
 def id_classes(tree, objs):
-    """per node: the identities (renumbered) of the non-empty dictionaries reachable from what it holds"""
+    """per node: the identities (renumbered) of the dictionaries and lists reachable from what it holds (if that is
+    not empty)"""
     ren, out = {}, []
     for node, o in zip(preorder(tree), objs):
         acc = set()
@@ -817,6 +943,10 @@ def _scribble(d, depth=0):
         for v in list(d.values()):
             _scribble(v, depth + 1)
         d["hzg"] = depth
+    elif isinstance(d, list) and depth < 6:
+        for v in d:
+            _scribble(v, depth + 1)
+        d.append("hzg")
 
 
 def _fresh_names(tree, ref):
@@ -972,6 +1102,9 @@ def _run_tree(tree, flow_ctxs, redeliver=None, full=True):
             except lena.core.LenaKeyError as e:
                 raised.append(_keyerr(e)["e"])
         res["redelivered"] = {"nodes": read_state(tree, objs), "raised": raised}
+        if not any(nd["k"] in ("hset", "hrun") for nd in preorder(tree)):
+            res["redelivered"]["fresh_names"] = {str(k): v for k, v in
+                                                 _fresh_names(tree, Ref(tree, start=redeliver[-1])).items()}
     return res
 
 
@@ -1032,8 +1165,12 @@ def _erase_names(pairs):
     return out
 
 
-def _strip_keys(d, prefix):
-    return {k: v for k, v in d.items() if not k.startswith(prefix)} if isinstance(d, dict) else d
+_HR = re.compile(r"hr\d+$")
+
+
+def _is_hr(k):
+    """a mark left by a hostile run-time element"""
+    return bool(_HR.match(k))
 
 
 def _cmp(kind, idx, node, exp, got, fields=("seen", "name", "get")):
@@ -1077,8 +1214,8 @@ def oracle(case, res):
             e2 = dict(exp)
             for fld in ("seen",):
                 if isinstance(g2.get(fld), dict):
-                    g2[fld] = {k: v for k, v in g2[fld].items() if k not in mine}
-                    e2[fld] = {k: v for k, v in e2[fld].items() if k not in mine}
+                    g2[fld] = _unmark(g2[fld], lambda k: k in mine)
+                    e2[fld] = _unmark(e2[fld], lambda k: k in mine)
             msg = _cmp("fold", idx, node, e2, g2, fields=("seen",))
         elif node["k"] in ("mkf", "write", "cache") and not hostile:
             msg = _cmp("fold", idx, node, exp, got, fields=("seen",))
@@ -1126,9 +1263,14 @@ def oracle(case, res):
                 # a hostile element that updates at run time the dictionary it was handed: the elements that were
                 # handed the same object show it (hr keys), and the sequences whose _static_context it is
                 shared = any(nodes[h]["k"] == "hrun" and tok_of[h] == tok_of[idx] for h in hostile)
+                if node["k"] in ("seq", "split") and any(nodes[h]["k"] == "hrun" and idx < h < idx + len(preorder(node))
+                                                         for h in hostile):
+                    # the dictionary that the hostile element rewrites is (part of) what this node exports: the
+                    # marks sit inside nested values, which an intersection then drops
+                    continue
                 if node["k"] in ("seq", "split") or (node["k"] in ("ucfs", "mkf") and shared):
-                    before = {k: _strip_keys(v, "hr") for k, v in before.items()}
-                    aft = {k: _strip_keys(v, "hr") for k, v in aft.items()}
+                    before = {k: _unmark(v, _is_hr) for k, v in before.items()}
+                    aft = {k: _unmark(v, _is_hr) for k, v in aft.items()}
             if before != aft:
                 return (f"node #{idx} {node}: static state changed by running the flow {case.get('flow')}: "
                         f"before {before}, after {aft}")
@@ -1142,6 +1284,46 @@ def oracle(case, res):
             msg = _cmp("fold", idx, node, exp, got2, fields=("seen", "get"))
             if msg:
                 return f"after _set_context({case['redeliver'][0]}) of the whole tree: " + msg
+    # (2c') the constructed tree is placed into a SECOND enclosing sequence (element re-use): a delivery that reaches
+    # every element (no formatting key unresolved, no element handed an empty context, which lena skips) leaves no
+    # memory of the earlier one — every element holds the fold started from the LAST delivered context, and the
+    # names are those that fresh elements derive from it
+    if res.get("redelivered") is not None and len(case["redeliver"]) >= 2 and not hostile:
+        ref2 = Ref(tree, start=case["redeliver"][-1])
+        if ref2.top[0] == "ok" and not ref2.empty_in and not ref2.dict_rendered:
+            fresh2 = res["redelivered"].get("fresh_names") or {}
+            for idx, (node, got2) in enumerate(zip(nodes, res["redelivered"]["nodes"])):
+                exp = ref2.exp.get(idx)
+                if exp is None:
+                    continue
+                msg = _cmp("fold", idx, node, exp, got2, fields=("seen", "get"))
+                if msg is None and node["k"] in ("mkf", "write", "cache") and str(idx) in fresh2:
+                    tpl = parse_template(node["fmt"]) if node["k"] != "mkf" else None
+                    resolvable = True
+                    if tpl is not None:
+                        try:
+                            ref_format(tpl, ref2.seen_at[idx])
+                        except (RefKeyError, DictRendered):
+                            resolvable = False      # Write / Cache keep the name they had
+                    if resolvable and fresh2[str(idx)] != got2.get("name"):
+                        msg = (f"node #{idx} {node}: derived name is {got2.get('name')}, a fresh element handed the "
+                               f"prefix fold derives {fresh2[str(idx)]}")
+                if msg:
+                    return (f"after _set_context of the whole tree with {case['redeliver'][0]} and then "
+                            f"{case['redeliver'][-1]} (the tree is placed into a second enclosing sequence): " + msg)
+    # (2d) without MakeFilename the flow is fully determined by the statement: static context enters the run-time
+    # context through UpdateContextFromStatic alone, as a recursive update with the prefix fold of its position
+    if got is not None and "r" in got and not hostile and case.get("flow") is not None \
+            and not any(nd["k"] == "mkf" for nd in nodes) and consumers_defined(tree, ref.exp):
+        try:
+            flow = [(i, copy.deepcopy(c)) for i, c in enumerate(case["flow"])]
+            want = [[d, c] for d, c in ref_run(tree, ref.exp, 0, flow)[0]]
+        except (Unmodelled, DictRendered):
+            want = None
+        if want is not None and want != [list(x) for x in got["r"]]:
+            return (f"run-time result {got['r']} differs from {want}: every UpdateContextFromStatic updates the "
+                    f"run-time context recursively with the prefix fold of its position, nothing else reads static "
+                    f"context")
     # (3) causality: equal cones => equal observations, across the tree and its variants
     if case.get("variants"):
         table = {}
@@ -1198,7 +1380,7 @@ def _enc_leaf(node, ix):
     if k == "set":
         v = node["val"]
         tpl = parse_template(v) if isinstance(v, str) else None
-        return {"k": "set", "key": [ix[p] for p in node["key"].split(".")], "val": v if tpl is None else None,
+        return {"k": "set", "key": [ix[p] for p in node["key"].split(".")], "val": _encv(v) if tpl is None else None,
                 "tpl": None if tpl is None else _enc_tpl(tpl, ix)}
     def enc(fmt):
         tpl = parse_template(fmt)
@@ -1208,10 +1390,11 @@ def _enc_leaf(node, ix):
                 "overwrite": bool(node.get("overwrite"))}
     if k in ("write", "cache"):
         return {"k": k, "tpl": enc(node["fmt"])}
-    if k in ("fc", "fr"):
+    if k in ("fc", "fr", "app"):
+        # (a tree with an `app` element is modelled for static context only: no flow is sent)
         return {"k": "data"}
     if k == "mut":
-        return {"k": k, "key": [ix[p] for p in node["key"].split(".")], "val": node["val"]}
+        return {"k": k, "key": [ix[p] for p in node["key"].split(".")], "val": _encv(node["val"])}
     return {"k": k}
 
 
@@ -1228,6 +1411,14 @@ def has_hostile(tree):
     return any(nd["k"] in ("hset", "hrun") for nd in preorder(tree))
 
 
+def has_app(tree):
+    return any(nd["k"] == "app" for nd in preorder(tree))
+
+
+def _enc_flow(flow):
+    return None if flow is None else [None if c is None else _encv(c) for c in flow]
+
+
 def model_requests(case):
     if has_hostile(case["tree"]):
         # an element that updates in place the dictionary it is handed is outside the value model (and outside the
@@ -1236,9 +1427,9 @@ def model_requests(case):
     names = alphabet(case)
     ix = {nm: i for i, nm in enumerate(names)}
     req = {"op": "build", "names": names, "out": [ix[k] for k in OUT_KEYS], "tree": enc_tree(case["tree"], ix),
-           "flow": case.get("flow"), "src": SRC_FLOW}
+           "flow": None if has_app(case["tree"]) else _enc_flow(case.get("flow")), "src": SRC_FLOW}
     if case.get("redeliver"):
-        req["redeliver"] = case["redeliver"]
+        req["redeliver"] = [_encv(c) for c in case["redeliver"]]
     return [req]
 
 
@@ -1249,9 +1440,30 @@ def _strip(node, rec):
     if isinstance(rec.get("get"), dict) and "cls" in rec["get"]:
         g = rec["get"]
         rec["get"] = {"e": g["e"]} if g["cls"] == "LenaKeyError" else {"other": g["cls"]}
+    elif isinstance(rec.get("get"), dict) and set(rec["get"]) != {"e"}:
+        rec["get"] = _encv(rec["get"])
+    if isinstance(rec.get("seen"), dict):
+        rec["seen"] = _encv(rec["seen"])
     if node["k"] in ("write", "cache"):
         rec["name"] = {"unformatted": True} if rec["name"] == node["fmt"] else rec["name"]
     return rec
+
+
+def py_covers(tree, ctx):
+    """the delivery of ctx to the constructed tree reaches every element: no formatting key of a SetContext, Write
+    or Cache is unresolved and no element with _set_context is handed an empty context (the Python twin of `covers`)"""
+    ref = Ref(tree, start=ctx)
+    if ref.top[0] != "ok" or ref.empty_in:
+        return False
+    for idx, node in enumerate(preorder(tree)):
+        if node["k"] in ("write", "cache"):
+            tpl = parse_template(node["fmt"])
+            if tpl is not None:
+                try:
+                    ref_format(tpl, ref.seen_at[idx])
+                except RefKeyError:
+                    return False
+    return True
 
 
 def _id_check(tree, ids, toks):
@@ -1294,7 +1506,7 @@ def compare(case, res, replies):
     # independent Python reference, and against the model's own protocol (what the theorems state)
     tree = case["tree"]
     ref = Ref(tree)
-    want = ref.top[1] if ref.top[0] == "ok" else {"e": ref.top[1]}
+    want = _encv(ref.top[1]) if ref.top[0] == "ok" else {"e": ref.top[1]}
     if m["fold"] != want:
         return f"model fold {m['fold']} vs reference prefix fold {want}"
     nodes = preorder(tree)
@@ -1339,17 +1551,25 @@ def compare(case, res, replies):
                     return f"after _set_context({case['redeliver']}): node #{i}: impl {a} vs model (setCtx) {b}"
             return (f"after _set_context({case['redeliver']}): raised impl {res['redelivered']['raised']} vs model "
                     f"{mr.get('raised')}")
-    if res.get("out") is not None:
+        # the model's `covers` (hypothesis of delivery_memoryless / reuse_memoryless) against the harness's own
+        # notion of "the last delivery reaches every element"; the theorem's closed form against the protocol
+        if mr.get("covers") != py_covers(tree, case["redeliver"][-1]):
+            return (f"after _set_context({case['redeliver']}): model covers {mr.get('covers')} vs harness "
+                    f"{py_covers(tree, case['redeliver'][-1])}")
+        if mr.get("final_last") is not None:
+            return (f"after _set_context({case['redeliver']}): model final t [c] {mr['final_last']} vs model protocol "
+                    f"{mr.get('nodes')} (reuse_memoryless)")
+    if res.get("out") is not None and not has_app(tree):
         o = res["out"]
         mo = m.get("out") or {}
         if "e" in o:
             return f"run: impl raised {o}, model (run) {mo}"
-        got_r = [list(x) for x in o["r"]]
+        got_r = [[x[0], None if x[1] is None else _encv(x[1])] for x in o["r"]]
         if mo.get("r") != got_r:
             return f"run: impl {got_r} vs model (run) {mo}"
         if consumers_defined(tree, ref.exp):
             flow = [(i, copy.deepcopy(c)) for i, c in enumerate(case.get("flow") or [])]
-            exp_out = [[d, c] for d, c in ref_run(tree, ref.exp, 0, flow)[0]]
+            exp_out = [[d, None if c is None else _encv(c)] for d, c in ref_run(tree, ref.exp, 0, flow)[0]]
             if mo.get("ref") != exp_out:
                 return f"run: model runRef {mo.get('ref')} vs reference run {exp_out}"
             if mo.get("ref") != mo.get("r"):
@@ -1371,6 +1591,8 @@ def compare(case, res, replies):
 
 KEYS = ["a", "b", "c", "a.x", "a.y", "b.y", "a.x.y", "a.x.z"]
 CONSTS = [1, 2, "s", "t", 0, -3]
+# constants that are not ints or strings: lists are MUTABLE (whoever shares one with the static context can rewrite it)
+OPAQUE = [["trigger"], [1, [2]], [{"n": 1}], 2.5, None]
 FIELDS = ["a", "b", "c", "a.x", "b.y", "zz", "a.zz", "a.x.y"]
 
 
@@ -1412,6 +1634,8 @@ def rand_leaf(rng, pformat=0.3):
         if rng.random() < 0.12:
             # a static key that MakeFilename's bookkeeping must not take for a run-time one
             return {"k": "set", "key": rng.choice(OUT_STATIC_KEYS), "val": rng.choice(["SP_", "_SS", "st", "s"])}
+        if rng.random() < 0.12:
+            return {"k": "set", "key": rng.choice(KEYS), "val": copy.deepcopy(rng.choice(OPAQUE))}
         v = _tpl(rng) if rng.random() < pformat else rng.choice(CONSTS)
         return {"k": "set", "key": rng.choice(KEYS), "val": v}
     if r < 0.58:
@@ -1425,8 +1649,11 @@ def rand_leaf(rng, pformat=0.3):
     if r < 0.92:
         return {"k": "cache", "fmt": ("d/" if rng.random() < 0.1 else "") +
                 ("c_" + _tpl(rng) + ".pkl" if rng.random() < 0.9 else "c.pkl")}
-    if r < 0.96:
-        return {"k": "mut", "key": rng.choice(KEYS), "val": rng.choice(CONSTS)}
+    if r < 0.95:
+        if rng.random() < 0.3:
+            return {"k": "app"}
+        return {"k": "mut", "key": rng.choice(KEYS),
+                "val": copy.deepcopy(rng.choice(OPAQUE)) if rng.random() < 0.15 else rng.choice(CONSTS)}
     if r < 0.975:
         return {"k": rng.choice(["hset", "hrun"])}
     return {"k": "data"}
@@ -1491,7 +1718,7 @@ def rand_seq(rng, depth, kind, nmax=4, pformat=0.3):
         pre = []
         for _ in range(rng.randint(0, 2)):
             leaf = rand_leaf(rng, pformat)
-            if leaf["k"] in ("set", "store", "data", "mkf", "mut"):
+            if leaf["k"] in ("set", "store", "data", "mkf", "mut", "app"):
                 pre.append(leaf)
         anchor = {"k": ANCHOR.get(kind) or rng.choice(["fc", "fc", "fr"])}
         post = [rand_tree(rng, depth - 1, pformat) for _ in range(rng.randint(0, nmax))]
@@ -1572,10 +1799,13 @@ def mutate_after(rng, tree, path, pformat):
 
 
 def _dict_paths(c, prefix, acc):
+    """the paths of c at which a formatting field would render something that is not an int or a string"""
     if isinstance(c, dict):
         acc.add(prefix)
         for k, v in c.items():
             _dict_paths(v, (prefix + "." + k) if prefix else k, acc)
+    elif not _is_plain(c):
+        acc.add(prefix)
 
 
 def _renders_dict(tree, flow=None):
@@ -1598,6 +1828,8 @@ def _renders_dict(tree, flow=None):
             parts = nd["key"].split(".")
             for i in range(1, len(parts)):
                 dicts.add(".".join(parts[:i]))
+            if not (_is_plain(nd["val"])):
+                dicts.add(nd["key"])        # an opaque value (list, float, None): str() of it is not modelled
     if flow is not None:
         rt = set()
         for c in list(flow) + SRC_FLOW:
@@ -1610,6 +1842,8 @@ def _renders_dict(tree, flow=None):
                 parts = nd["key"].split(".")
                 for i in range(1, len(parts)):
                     rt.add(".".join(parts[:i]))
+                if not _is_plain(nd["val"]):
+                    rt.add(nd["key"])
         if mkf_fields & rt:
             return True
         try:
@@ -1625,10 +1859,12 @@ FLOWS = [[{"r": 0}], [{"r": 0}, {"a": "rt", "r": 1}], [], [{"output": {"filename
          [{"output": {"prefix": "P_", "suffix": "_S", "x": 1}, "c": "rc"}, {"output": {"suffix": ""}, "a": {"x": 5}}],
          [{}, {}, {}], [{"r": 0}, {"c": "rc"}, {"r": 2}],
          [{}, {"output": {"prefix": "R_", "suffix": "_R"}}, {"c": "rc"}],
-         [None, {"a": {"x": {"z": 3}}}, None], [None, {}, {"r": 1}]]
+         [None, {"a": {"x": {"z": 3}}}, None], [None, {}, {"r": 1}],
+         [{"c": ["c0"]}, {}, {"a": {"x": [0]}, "r": 2}]]
 
 
-REDELIVER = [{"a": 5}, {"zz": "q"}, {"a": {"x": 7}, "c": 0}, {"b": "o"}, {"a": {"zz": 1}}]
+REDELIVER = [{"a": 5}, {"zz": "q"}, {"a": {"x": 7}, "c": 0}, {"b": "o"}, {"a": {"zz": 1}},
+             {"a": 6, "b": "p"}, {"zz": "r", "a": {"x": 8}}, {"a": 7, "b": "o", "c": ["k"]}]
 
 
 def _redeliver_ok(tree, ctxs):
@@ -1701,6 +1937,17 @@ EX_LEAVES_MORE = [
     {"k": "write", "fmt": "o_{{b}}"},
     {"k": "cache", "fmt": "c_{{a}}.pkl"},
     {"k": "mut", "key": "a.y", "val": 7},
+]
+# leaves for mutable constants (sampled scope)
+MUT_LEAVES = [
+    {"k": "set", "key": "c", "val": ["trigger"]},
+    {"k": "set", "key": "a.y", "val": [1, [2]]},
+    {"k": "set", "key": "a", "val": 1},
+    {"k": "store"},
+    {"k": "ucfs"},
+    {"k": "app"},
+    {"k": "mut", "key": "c", "val": [{"n": 1}]},
+    {"k": "mkf", "fmt": "{{a}}_n"},
 ]
 
 
@@ -1852,6 +2099,63 @@ def alias_cases():
     return out
 
 
+def mutable_cases():
+    """Directed family for MUTABLE constants in the static context (a list, a list in a list, a dictionary in a list;
+    flat and nested keys): a consumer that keeps what it was given (UpdateContextFromStatic, StoreContext,
+    MakeFilename), then an ordinary run-time element that extends in place every list of the run-time context
+    (`context["cuts"].append(..)`), again a consumer; with the SetContext, the consumer or the run-time element in
+    a nested Sequence or in a Split branch; three values.  Only a deep copy keeps the static context (what every
+    element saw, what every sequence exports) apart from the run-time contexts made from it; every dictionary
+    returned by _get_context() is also extended in place at every level, lists included."""
+    out = []
+    for val in (["trigger"], [1, [2]], [{"n": 1}]):
+        for key in ("c", "a.x.y"):
+            head = [{"k": "set", "key": key, "val": val}]
+            consumers = [[{"k": "ucfs"}], [{"k": "store"}, {"k": "ucfs"}], [{"k": "mkf", "fmt": "n_{{b}}"}, {"k": "ucfs"}]]
+            tails = [[{"k": "app"}], [{"k": "app"}, {"k": "set", "key": "b", "val": 2}, {"k": "ucfs"}, {"k": "app"}],
+                     [{"k": "mut", "key": "a.y", "val": [0]}, {"k": "app"}, {"k": "store"}]]
+            for cons in consumers:
+                for tail in tails:
+                    shapes = [head + cons + tail,
+                              [{"k": "seq", "kind": "Sequence", "c": head}] + cons + tail,
+                              head + [{"k": "seq", "kind": "Sequence", "c": cons}] + tail,
+                              [{"k": "split", "c": [{"k": "seq", "kind": "Sequence", "c": head + cons + tail},
+                                                    {"k": "seq", "kind": "tuple", "c": cons + [{"k": "app"}]}]},
+                               {"k": "store"}]]
+                    for cs in shapes:
+                        for kind, flow in (("Sequence", FLOWS[5]), ("Sequence", FLOWS[10]), ("Source", [])):
+                            t = {"k": "seq", "kind": kind, "c": ([{"k": "src"}] if kind == "Source" else []) + copy.deepcopy(cs)}
+                            if not _renders_dict(t):
+                                out.append({"tree": t, "flow": _flow_for(t, flow), "variants": []})
+    return out
+
+
+def reuse_cases():
+    """Directed family for element re-use: a constructed tree is placed into an enclosing sequence and then into a
+    second one (`_set_context` of the whole tree with two contexts in turn), the contexts giving DIFFERENT values to
+    the key that the tree's formatting SetContext / Write / Cache / MakeFilename name.  When the second delivery
+    reaches every element, nothing may remember the first."""
+    out = []
+    bodies = [[{"k": "set", "key": "b", "val": "{{a}}_f"}, {"k": "store"}, {"k": "ucfs"}],
+              [{"k": "write", "fmt": "o_{{a}}"}, {"k": "cache", "fmt": "c_{{a}}.pkl"}, {"k": "mkf", "fmt": "{{a}}_n"}],
+              [{"k": "seq", "kind": "Sequence", "c": [{"k": "set", "key": "c", "val": "{{a}}"}]}, {"k": "store"},
+               {"k": "write", "fmt": "o_{{c}}"}],
+              [{"k": "split", "c": [{"k": "seq", "kind": "Sequence", "c": [{"k": "set", "key": "c", "val": "p{{a}}-{{a}}"},
+                                                                            {"k": "cache", "fmt": "c_{{c}}.pkl"}]},
+                                    {"k": "seq", "kind": "tuple", "c": [{"k": "store"}]}]}, {"k": "ucfs"}],
+              [{"k": "set", "key": "a.x", "val": 1}, {"k": "mkf", "fmt": None, "prefix": "P{{b}}_", "dirname": "D{{b}}"},
+               {"k": "set", "key": "c", "val": "{{b}}"}, {"k": "store"}]]
+    pairs = [[{"a": 5}, {"a": 6, "b": "p"}], [{"a": 6, "b": "p"}, {"a": 7, "b": "o", "c": ["k"]}],
+             [{"a": 5}, {"zz": "q"}], [{"a": 7, "b": "o", "c": ["k"]}, {"a": 5}], [{"b": "o"}, {"a": 6, "b": "p"}]]
+    for body in bodies:
+        for rd in pairs:
+            for kind, flow in (("Sequence", FLOWS[1]), ("Source", [])):
+                t = {"k": "seq", "kind": kind, "c": ([{"k": "src"}] if kind == "Source" else []) + copy.deepcopy(body)}
+                if not _renders_dict(t) and _redeliver_ok(t, rd):
+                    out.append({"tree": t, "flow": _flow_for(t, flow), "variants": [], "redeliver": copy.deepcopy(rd)})
+    return out
+
+
 def _forests(n, depth, leaves):
     """all lists of trees with exactly n leaves in total, nesting depth <= depth (depth 0: leaves only).
     Containers: Sequence, and Split of 1..2 Sequence branches (every branch non-empty)."""
@@ -1936,14 +2240,18 @@ def gen_cases(ctx):
     yield from output_cases()
     yield from hostile_cases()
     yield from degenerate_split_cases()
+    yield from mutable_cases()
+    yield from reuse_cases()
     if ctx.tier == "quick":
         yield from exhaustive_cases(2, 2, EX_LEAVES + EX_LEAVES_MORE, source=True)
         yield from sampled_cases(rng, 3, 2, EX_LEAVES, 4000)
+        yield from sampled_cases(rng, 4, 2, MUT_LEAVES, 1500)
         n_rand = 3000
     else:
         yield from exhaustive_cases(3, 2, EX_LEAVES, source=True)
         yield from exhaustive_cases(2, 2, EX_LEAVES + EX_LEAVES_MORE, source=True)
         yield from sampled_cases(rng, 4, 2, EX_LEAVES + EX_LEAVES_MORE, 30000)
+        yield from sampled_cases(rng, 4, 2, MUT_LEAVES, 10000)
         n_rand = 30000
     for i in range(n_rand):
         pformat = (0.0, 0.3, 0.6)[i % 3]
